@@ -213,4 +213,68 @@ theorem C15_rel_set_then_get_relaxed (g : Row) (hg : g ∈ Gen.Accessors.rows) (
   refine ⟨k, _, h1, h2, h3, rfl, h5, ?_, v3, v4⟩
   simp [relGetRelaxed, h4, v2]
 
+/-! ### non-vacuity -/
+
+/-- `debhelper-compat (= 13), libfoo-dev:any (>= 1.2~rc1) [amd64 !i386] <!nocheck> | bar` -/
+def exRel : FieldA :=
+  ⟨[ ⟨[], .alts ⟨"debhelper-compat".toList, none,
+        some ⟨[.ws [' ']], [], .Equal, [.ws [' ']], ⟨none, "13".toList⟩, []⟩, none, []⟩ [], []⟩,
+     ⟨[.ws [' ']], .alts
+        ⟨"libfoo-dev".toList, some "any".toList,
+          some ⟨[.ws [' ']], [], .GreaterThanEqual, [.ws [' ']], ⟨none, "1.2~rc1".toList⟩, []⟩,
+          some ⟨[.ws [' ']], [⟨[], false, "amd64".toList⟩, ⟨[.ws [' ']], true, "i386".toList⟩], []⟩,
+          [⟨[.ws [' ']], [⟨[], true, "nocheck".toList⟩], []⟩]⟩
+        [⟨[.ws [' ']], [.ws [' ']], ⟨"bar".toList, none, none, none, []⟩⟩], []⟩ ]⟩
+
+example : exRel.str =
+    "debhelper-compat (= 13), libfoo-dev:any (>= 1.2~rc1) [amd64 !i386] <!nocheck> | bar".toList := by
+  decide +kernel
+
+example : exRel.WF ∧ exRel.hasSubstvar = false := by decide +kernel
+
+/-- what the getter's value exposes for the example -/
+example : exRel.view =
+    [[⟨"debhelper-compat".toList, none, none, some (.Equal, ⟨none, "13".toList, none⟩), []⟩],
+     [⟨"libfoo-dev".toList, some "any".toList, some ["amd64".toList, "!i386".toList],
+        some (.GreaterThanEqual, ⟨none, "1.2~rc1".toList, none⟩), [[.Disabled "nocheck".toList]]⟩,
+      ⟨"bar".toList, none, none, none, []⟩]] := by decide +kernel
+
+/-- the same field folded over three lines with a tab and two spaces of indentation, a trailing
+    comma, and `${misc:Depends}`:
+    `debhelper-compat (= 13),\n\tlibfoo-dev:any (>= 1.2~rc1) [amd64 !i386] <!nocheck>\n  | bar,\n ${misc:Depends},` -/
+def exRelFolded : FieldA :=
+  ⟨[ ⟨[], .alts ⟨"debhelper-compat".toList, none,
+        some ⟨[.ws [' ']], [], .Equal, [.ws [' ']], ⟨none, "13".toList⟩, []⟩, none, []⟩ [], []⟩,
+     ⟨[.nl, .ws ['\t']], .alts
+        ⟨"libfoo-dev".toList, some "any".toList,
+          some ⟨[.ws [' ']], [], .GreaterThanEqual, [.ws [' ']], ⟨none, "1.2~rc1".toList⟩, []⟩,
+          some ⟨[.ws [' ']], [⟨[], false, "amd64".toList⟩, ⟨[.ws [' ']], true, "i386".toList⟩], []⟩,
+          [⟨[.ws [' ']], [⟨[], true, "nocheck".toList⟩], []⟩]⟩
+        [⟨[.nl, .ws "  ".toList], [.ws [' ']], ⟨"bar".toList, none, none, none, []⟩⟩], []⟩,
+     ⟨[.nl, .ws [' ']], .substvar "misc".toList ["Depends".toList], []⟩,
+     ⟨[], .empty, []⟩ ]⟩
+
+example : exRelFolded.str =
+    "debhelper-compat (= 13),\n\tlibfoo-dev:any (>= 1.2~rc1) [amd64 !i386] <!nocheck>\n  | bar,\n ${misc:Depends},".toList := by
+  decide +kernel
+
+example : exRelFolded.WF ∧ exRelFolded.hasSubstvar = true ∧ exRelFolded.view = exRel.view
+    ∧ exRelFolded.substvars = ["${misc:Depends}".toList] := by decide +kernel
+
+/-- the row hypotheses are satisfiable: control `Source::build_depends` / `set_build_depends`
+    (and 27 more pairs, `C15_rel_pairs_count`) -/
+example : ∃ g s, g ∈ Gen.Accessors.rows ∧ g.kind = .get ∧ isRelRow g = true ∧ setterOf g = some s
+    ∧ g.view = "control.Source".toList ∧ g.method = "build_depends".toList
+    ∧ s.method = "set_build_depends".toList := by
+  refine ⟨(findRow "control.Source".toList "build_depends".toList).get (by decide +kernel),
+    (findRow "control.Source".toList "set_build_depends".toList).get (by decide +kernel), ?_⟩
+  decide +kernel
+
+/-- … and control `Binary::depends` / `set_depends` -/
+example : ∃ g s, g ∈ Gen.Accessors.rows ∧ g.kind = .get ∧ isRelRow g = true ∧ setterOf g = some s
+    ∧ g.view = "control.Binary".toList ∧ g.names = ["Depends".toList] ∧ s.optional = true := by
+  refine ⟨(findRow "control.Binary".toList "depends".toList).get (by decide +kernel),
+    (findRow "control.Binary".toList "set_depends".toList).get (by decide +kernel), ?_⟩
+  decide +kernel
+
 end Deb822Verif.Props.C15
